@@ -318,9 +318,29 @@ and gen_nested_rec st env =
   st.acc <- 1; st.mult <- 1; st.limit <- 14; st.fuelv <- 0; st.clf <- 0;
   let env' = nv :: av :: env in
   let small () = gen_int st env' 1 in
-  let self () = ECall (EVar (n_of_int f), [EBin (Sub, EVar (n_of_int n), ei 1); small ()]) in
   let cond = EBin (Le, EVar (n_of_int n), ei 0) in
   let tailp = Rng.pct st.rng 45 in
+  (* sometimes the recursion goes through a helper h nested in f that mentions f: a named function or a
+     function expression bound to a let; the closure maker captures f by COPYGLOB; ID_FUNC_ADDR f *)
+  let viah = if tailp then 0 else (match Rng.int st.rng 5 with 0 -> 1 | 1 -> 2 | _ -> 0) in
+  let h = if viah > 0 then fresh st else 0 in
+  let m = if viah > 0 then fresh st else 0 in
+  let k = if viah = 2 then fresh st else 0 in
+  let helper () =
+    let second = if Rng.bool st.rng then EVar (n_of_int a) else EBin (Add, EVar (n_of_int a), EVar (n_of_int m)) in
+    let call = ECall (EVar (n_of_int f), [EBin (Sub, EVar (n_of_int m), ei 1); second]) in
+    let hbody = if Rng.bool st.rng then call else EBin (Add, call, EVar (n_of_int n)) in
+    FDef (n_of_int h, [((n_of_int m, false), TInt)], TInt, [IExpr hbody], [], None) in
+  let pre_items =
+    match viah with
+    | 1 -> [IFunc (helper ())]
+    | 2 -> [ILet (n_of_int k, ELambda (helper ()))]
+    | _ -> [] in
+  let self () =
+    match viah with
+    | 1 -> ECall (EVar (n_of_int h), [EVar (n_of_int n)])
+    | 2 -> ECall (EVar (n_of_int k), [EVar (n_of_int n)])
+    | _ -> ECall (EVar (n_of_int f), [EBin (Sub, EVar (n_of_int n), ei 1); small ()]) in
   let step =
     if tailp then
       (match Rng.int st.rng 3 with
@@ -335,8 +355,8 @@ and gen_nested_rec st env =
        | 1 -> EBin (Add, self (), small ())
        | _ -> EBin (Rng.pick st.rng [Div; Mod], small (), EBin (Add, self (), ei (Rng.range st.rng 0 2)))) in
   let base = small () in
-  let body = [IExpr (ECond (cond, base, step))] in
-  let cost = 8 * st.acc in
+  let body = pre_items @ [IExpr (ECond (cond, base, step))] in
+  let cost = (if viah > 0 then 16 else 8) * st.acc in
   let catches = if (not tailp) && Rng.pct st.rng 30 then ([(ExDivision, [IExpr (gen_int st (av :: env) 1)])], None) else ([], None) in
   st.acc <- s_acc; st.limit <- s_lim; st.mult <- s_mult; st.fuelv <- s_fuel; st.clf <- s_clf - 1;
   let fd = FDef (n_of_int f, [((n_of_int n, false), TInt); ((n_of_int a, false), TInt)], TInt, body, fst catches, snd catches) in
